@@ -1,19 +1,260 @@
-import SSV.Proofs.Packet
+import SSV.Proofs.PacketRelay
+import SSV.Proofs.PacketSSDown
 /-
-C05 — property theorems (statements only; helper lemmas in SSV/Proofs/Packet*.lean).
+C05 — UDP packets survive pack/unpack unchanged and never exceed the path MTU.
+Property theorems only; helper lemmas are in SSV/Proofs/Packet*.lean. The model (SSV/Model/Packet.lean,
+SSV/Model/PacketRelay.lean) takes every offset formula, headroom literal and layout expression from SSV/Gen/C05.lean,
+which is regenerated from the source on every run.
+
+`norm` (Addr.norm / AddrPort.norm) is the identity except: an IPv4-mapped IPv6 address comes out as the IPv4
+address, and the zero `conn.Addr` comes out as 0.0.0.0:0 — the wire format the code chooses
+(`socks5.WriteAddrFromAddrPort`, `WriteAddrFromConnAddr`).
 -/
 namespace SSV.C05
 open SSV SSV.Packet SSV.Gen.C05
 
+/-! ## the normalisation is the identity except for the two documented cases -/
+
+theorem norm_id_ip (ap : AddrPort) (h : ap.ip.v4family = false) : (Addr.ip ap).norm = .ip ap := by
+  simp [Addr.norm, AddrPort.norm, IP.norm, h]
+theorem norm_id_v4 (a : Bytes) (p : Nat) : (Addr.ip ⟨.v4 a, p⟩).norm = .ip ⟨.v4 a, p⟩ := by
+  simp [Addr.norm, AddrPort.norm, IP.norm, IP.v4family, IP.as4]
+theorem norm_id_dom (n : Bytes) (p : Nat) : (Addr.dom n p).norm = .dom n p := rfl
+theorem norm_mapped (a : Bytes) (p : Nat) (h : (IP.v6 a).v4family = true) :
+    (Addr.ip ⟨.v6 a, p⟩).norm = .ip ⟨.v4 (a.drop 12), p⟩ := by
+  simp [Addr.norm, AddrPort.norm, IP.norm, h, IP.as4]
+
+/-! ## round trip -/
+
 /-- The SOCKS address codec: what `WriteAddrFromConnAddr` writes, `ConnAddrFromSlice` reads back as the
-same address — up to the documented normalisation (IPv4-mapped IPv6 → IPv4, zero value → 0.0.0.0:0) —
-and consumes exactly `LengthOfAddrFromConnAddr` bytes, whatever follows. -/
+normalised address, consuming exactly `LengthOfAddrFromConnAddr` bytes, whatever follows. -/
 theorem addr_codec_roundtrip (a : Addr) (rest : Bytes) (h : a.wf) :
     decodeAddr (encodeAddr a ++ rest) = .ok (a.norm, (addrLen a).toNat) :=
   decode_encodeAddr a rest h
 
+theorem addrport_codec_roundtrip (a : AddrPort) (rest : Bytes) (h : a.wf) :
+    decodeAddrPort (encodeAddrPort a ++ rest) = .ok (a.norm, (addrPortLen a).toNat) :=
+  decode_encodeAddrPort a rest h
+
+/-- roundtrip_none / roundtrip_socks5, client → server (`hdr3 = false`: Shadowsocks none, `true`: SOCKS5):
+whatever the buffer, offsets and limit, if the client packer succeeds then the server unpacker, run on the
+packet it produced, returns the normalised address and the payload window, and the payload bytes are unchanged. -/
+theorem roundtrip_plain_up (hdr3 : Bool) (limit : Int) (b : Bytes) (a : Addr) (ps pl : Nat) (r : Packed)
+    (ha : a.wf) (hpay : ps + pl ≤ b.length) (h : plainClientPack hdr3 limit b a ps pl = .ok r) :
+    plainServerUnpack hdr3 r.buf r.packetStart.toNat r.packetLen.toNat = .ok ⟨r.buf, a.norm, ps, pl⟩ ∧
+    sub r.buf ps pl = sub b ps pl :=
+  plain_roundtrip_up hdr3 limit b a ps pl r ha hpay h
+
+/-- roundtrip_none / roundtrip_socks5, server → client. -/
+theorem roundtrip_plain_down (hdr3 : Bool) (limit : Int) (server pktSrc : AddrPort) (hfrom : mappedEqual pktSrc server = true)
+    (b : Bytes) (a : AddrPort) (ps pl : Nat) (r : Packed)
+    (ha : a.wf) (hpay : ps + pl ≤ b.length) (h : plainServerPack hdr3 b a ps pl limit = .ok r) :
+    plainClientUnpack hdr3 server pktSrc r.buf r.packetStart.toNat r.packetLen.toNat = .ok ⟨r.buf, a.norm, ps, pl⟩ ∧
+    sub r.buf ps pl = sub b ps pl :=
+  plain_roundtrip_down hdr3 limit server pktSrc hfrom b a ps pl r ha hpay h
+
+/-- roundtrip_ss2022, client → server, any number of identity headers, any padding policy / random draw /
+timestamp / ids, any AEAD and block cipher satisfying the laws: the server side (separate header decrypted with
+the packer's block key, `nonAEADHeaderLen = 16 + 16·k`, same session key, clock within `MaxEpochDiff` of the
+packet's timestamp) returns the normalised address and the payload in place, and touches nothing outside the packet. -/
+theorem roundtrip_ss2022_up (c : Crypto) (L : c.Laws) (userBlock aeadKey : Bytes) (eih : List (Bytes × Bytes)) (mps : Int)
+    (pol : Policy) (b : Bytes) (a : Addr) (ps pl rand : Nat) (ts sid pid : Bytes) (now : Int) (r : Packed)
+    (ha : a.wf) (hts : ts.length = 8) (hsid : sid.length = 8) (hpid : pid.length = 8)
+    (hh : ∀ kh ∈ eih, kh.2.length = 16) (hnow : tsOk ts now = true)
+    (h : ssClientPack c userBlock aeadKey eih mps pol b a ps pl rand ts sid pid = .ok r) :
+    ∃ u, ssServerUnpack c (ssBlock userBlock eih) aeadKey eih.length false [] now r.buf r.packetStart.toNat r.packetLen.toNat = .ok u ∧
+      u.addr = a.norm ∧ u.payloadStart = ps ∧ u.payloadLen = pl ∧ sub u.buf ps pl = sub b ps pl ∧
+      u.buf.length = b.length ∧ u.buf.take r.packetStart.toNat = r.buf.take r.packetStart.toNat ∧
+      u.buf.drop (r.packetStart + r.packetLen).toNat = r.buf.drop (r.packetStart + r.packetLen).toNat :=
+  ss_roundtrip_up c L userBlock aeadKey eih mps pol b a ps pl rand ts sid pid now r ha hts hsid hpid hh hnow h
+
+/-- roundtrip_ss2022, server → client: a fresh client unpacker (first packet of the server session), same block
+and session key, its own session id in the header, clock within `MaxEpochDiff`. -/
+theorem roundtrip_ss2022_down (c : Crypto) (L : c.Laws) (block aeadKey : Bytes) (pol : Policy) (b : Bytes) (a : AddrPort)
+    (ps pl : Nat) (lim : Int) (rand : Nat) (ts ssid spid csid : Bytes) (now : Int) (r : Packed)
+    (ha : a.wf) (hts : ts.length = 8) (hssid : ssid.length = 8) (hspid : spid.length = 8) (hcs : csid.length = 8)
+    (hnow : tsOk ts now = true)
+    (h : ssServerPack c block aeadKey pol b a ps pl lim rand ts ssid spid csid = .ok r) :
+    ∃ u, ssClientUnpack c block aeadKey csid now r.buf r.packetStart.toNat r.packetLen.toNat = .ok u ∧
+      u.addr = a.norm ∧ u.payloadStart = ps ∧ u.payloadLen = pl ∧ sub u.buf ps pl = sub b ps pl ∧
+      u.buf.length = b.length ∧ u.buf.take r.packetStart.toNat = r.buf.take r.packetStart.toNat ∧
+      u.buf.drop (r.packetStart + r.packetLen).toNat = r.buf.drop (r.packetStart + r.packetLen).toNat :=
+  ss_roundtrip_down c L block aeadKey pol b a ps pl lim rand ts ssid spid csid now r ha hts hssid hspid hcs hnow h
+
+/-- roundtrip_direct: the direct codecs leave buffer and window alone (the server names its tunnel address). -/
+theorem roundtrip_direct (target : Addr) (src : AddrPort) (b : Bytes) (ps pl : Nat) :
+    directServerUnpack target b ps pl = .ok ⟨b, target, ps, pl⟩ ∧
+    directClientUnpack src b ps pl = .ok ⟨b, src, ps, pl⟩ := ⟨rfl, rfl⟩
+
+/-! ## MTU bound and refusal -/
+
+/-- `MaxPacketSizeForAddr` leaves room for the real IP and UDP headers (IPv4 20, IPv6 40 + 8 for the jumbo
+payload option above 65575, UDP 8: literals of the RFCs, not of the source). -/
+theorem max_packet_size_fits_mtu (mtu : Int) (v4 : Bool) :
+    maxPacketSizeForAddr mtu v4 + (if v4 then 20 else if mtu > 65575 then 48 else 40) + 8 ≤ mtu := by
+  unfold maxPacketSizeForAddr
+  cases v4
+  · by_cases h : mtu > 65575 <;> simp [h] <;> omega
+  · simp only [if_true]; omega
+
+/-- mtu_bound_none / mtu_bound_socks5 (client): success ⇒ `packetLen ≤ limit` and the packet is exactly
+header ++ payload (no truncation); with enough front space the packer fails iff the packet cannot fit. -/
+theorem mtu_bound_plain_client (hdr3 : Bool) (limit : Int) (b : Bytes) (a : Addr) (ps pl : Nat) (ha : a.wf) :
+    (∀ r, plainClientPack hdr3 limit b a ps pl = .ok r →
+      r.packetLen ≤ limit ∧ r.packetLen = (pl : Int) + (plainHead hdr3 (encodeAddr a)).length) ∧
+    ((plainHead hdr3 (encodeAddr a)).length ≤ ps → ps ≤ b.length →
+      (plainClientPack hdr3 limit b a ps pl = .err .tooBig ↔ (pl : Int) + (plainHead hdr3 (encodeAddr a)).length > limit)) :=
+  ⟨fun _ h => by obtain ⟨_, _, _, h4, h5, _⟩ := plainClientPack_ok ha h; exact ⟨h5, h4⟩,
+   fun h1 h2 => plainClientPack_tooBig_iff hdr3 limit b a ps pl ha h1 h2⟩
+
+theorem mtu_bound_plain_server (hdr3 : Bool) (limit : Int) (b : Bytes) (a : AddrPort) (ps pl : Nat) (ha : a.wf) :
+    (∀ r, plainServerPack hdr3 b a ps pl limit = .ok r →
+      r.packetLen ≤ limit ∧ r.packetLen = (pl : Int) + (plainHead hdr3 (encodeAddrPort a)).length) ∧
+    ((plainHead hdr3 (encodeAddrPort a)).length ≤ ps → ps ≤ b.length →
+      (plainServerPack hdr3 b a ps pl limit = .err .tooBig ↔ (pl : Int) + (plainHead hdr3 (encodeAddrPort a)).length > limit)) :=
+  ⟨fun _ h => by obtain ⟨_, _, _, h4, h5, _⟩ := plainServerPack_ok ha h; exact ⟨h5, h4⟩,
+   fun h1 h2 => plainServerPack_tooBig_iff hdr3 limit b a ps pl ha h1 h2⟩
+
+/-- mtu_bound_ss2022 (client): success ⇒ `packetLen ≤ maxPacketSize`, the packet is
+separate header ++ identity headers ++ message header (with `pad ≤ 65535` bytes of padding) ++ payload ++ tag. -/
+theorem mtu_bound_ss2022_client (c : Crypto) (userBlock aeadKey : Bytes) (eih : List (Bytes × Bytes)) (mps : Int) (pol : Policy)
+    (b : Bytes) (a : Addr) (ps pl rand : Nat) (ts sid pid : Bytes) (r : Packed) (ha : a.wf)
+    (h : ssClientPack c userBlock aeadKey eih mps pol b a ps pl rand ts sid pid = .ok r) :
+    r.packetLen ≤ mps ∧ ∃ pad : Nat, pad ≤ 65535 ∧ r.packetLen = ((ssFront eih.length a pad + pl + 16 : Nat) : Int) := by
+  obtain ⟨pad, h1, _, _, h4, _, h6, _⟩ := ssClientPack_ok ha h
+  exact ⟨by omega, pad, h1, h6⟩
+
+/-- mtu_bound_ss2022 (server): success ⇒ `packetLen ≤ maxPacketLen`, no truncation. -/
+theorem mtu_bound_ss2022_server (c : Crypto) (block aeadKey : Bytes) (pol : Policy) (b : Bytes) (a : AddrPort)
+    (ps pl : Nat) (lim : Int) (rand : Nat) (ts ssid spid csid : Bytes) (r : Packed)
+    (h : ssServerPack c block aeadKey pol b a ps pl lim rand ts ssid spid csid = .ok r) :
+    r.packetLen ≤ lim ∧ ∃ pad : Nat, pad ≤ 65535 ∧ r.packetLen = ((ssSFront a pad + pl + 16 : Nat) : Int) := by
+  obtain ⟨pad, h1, _, _, h4, _, h6, _⟩ := ssServerPack_ok h
+  exact ⟨by omega, pad, h1, h6⟩
+
+/-- the ss2022 packers report too little front space as `ErrPayloadTooBig` and otherwise never panic nor lack
+seal room once 16 bytes follow the payload (the rear half of the headroom) -/
+theorem ss2022_pack_safe (c : Crypto) (userBlock aeadKey : Bytes) (eih : List (Bytes × Bytes)) (mps : Int) (pol : Policy)
+    (b : Bytes) (a : Addr) (src : AddrPort) (ps pl rand : Nat) (ts sid pid csid : Bytes) (ha : a.wf)
+    (hroom : ps + pl + 16 ≤ b.length) :
+    (ssClientPack c userBlock aeadKey eih mps pol b a ps pl rand ts sid pid).safe ∧
+    (ssServerPack c userBlock aeadKey pol b src ps pl mps rand ts sid pid csid).safe :=
+  ⟨ssClientPack_safe c userBlock aeadKey eih mps pol b a ps pl rand ts sid pid ha hroom,
+   ssServerPack_safe c userBlock aeadKey pol b src ps pl mps rand ts sid pid csid hroom⟩
+
+/-- …and without those 16 bytes the outcome is `noRoom` (Go seals into a fresh allocation): the rear headroom is needed -/
+theorem ss2022_pack_needs_rear : ssClientPack toyCrypto [1] [2] [] 1452 .noPadding (List.replicate 50 0) (.ip ⟨.v4 [1, 2, 3, 4], 53⟩)
+    34 10 0 [0, 0, 0, 0, 0, 0, 0, 0] [0, 0, 0, 0, 0, 0, 0, 1] [0, 0, 0, 0, 0, 0, 0, 2] = .noRoom := by rfl
+
+/-! ## frame -/
+
+/-- frame_ss2022 (client and server packers) -/
+theorem frame_ss2022_client (c : Crypto) (L : c.Laws) (userBlock aeadKey : Bytes) (eih : List (Bytes × Bytes)) (mps : Int)
+    (pol : Policy) (b : Bytes) (a : Addr) (ps pl rand : Nat) (ts sid pid : Bytes) (r : Packed)
+    (ha : a.wf) (hts : ts.length = 8) (hsid : sid.length = 8) (hpid : pid.length = 8)
+    (hh : ∀ kh ∈ eih, kh.2.length = 16)
+    (h : ssClientPack c userBlock aeadKey eih mps pol b a ps pl rand ts sid pid = .ok r) :
+    r.buf.length = b.length ∧ r.buf.take r.packetStart.toNat = b.take r.packetStart.toNat ∧
+    r.buf.drop (r.packetStart + r.packetLen).toNat = b.drop (r.packetStart + r.packetLen).toNat :=
+  ssClientPack_frame c L userBlock aeadKey eih mps pol b a ps pl rand ts sid pid r ha hts hsid hpid hh h
+
+theorem frame_ss2022_server (c : Crypto) (L : c.Laws) (block aeadKey : Bytes) (pol : Policy) (b : Bytes) (a : AddrPort)
+    (ps pl : Nat) (lim : Int) (rand : Nat) (ts ssid spid csid : Bytes) (r : Packed)
+    (ha : a.wf) (hts : ts.length = 8) (hssid : ssid.length = 8) (hspid : spid.length = 8) (hcs : csid.length = 8)
+    (h : ssServerPack c block aeadKey pol b a ps pl lim rand ts ssid spid csid = .ok r) :
+    r.buf.length = b.length ∧ r.buf.take r.packetStart.toNat = b.take r.packetStart.toNat ∧
+    r.buf.drop (r.packetStart + r.packetLen).toNat = b.drop (r.packetStart + r.packetLen).toNat :=
+  ssServerPack_frame c L block aeadKey pol b a ps pl lim rand ts ssid spid csid r ha hts hssid hspid hcs h
+
+
+/-- frame_none / frame_socks5: nothing outside `[packetStart, packetStart+packetLen)` is written. -/
+theorem frame_plain_client (hdr3 : Bool) (limit : Int) (b : Bytes) (a : Addr) (ps pl : Nat) (r : Packed)
+    (ha : a.wf) (hpay : ps + pl ≤ b.length) (h : plainClientPack hdr3 limit b a ps pl = .ok r) :
+    r.buf.length = b.length ∧ r.buf.take r.packetStart.toNat = b.take r.packetStart.toNat ∧
+    r.buf.drop (r.packetStart + r.packetLen).toNat = b.drop (r.packetStart + r.packetLen).toNat :=
+  plainClientPack_frame hdr3 limit b a ps pl r ha hpay h
+
+theorem frame_plain_server (hdr3 : Bool) (limit : Int) (b : Bytes) (a : AddrPort) (ps pl : Nat) (r : Packed)
+    (ha : a.wf) (hpay : ps + pl ≤ b.length) (h : plainServerPack hdr3 b a ps pl limit = .ok r) :
+    r.buf.length = b.length ∧ r.buf.take r.packetStart.toNat = b.take r.packetStart.toNat ∧
+    r.buf.drop (r.packetStart + r.packetLen).toNat = b.drop (r.packetStart + r.packetLen).toNat :=
+  plainServerPack_frame hdr3 limit b a ps pl r ha hpay h
+
+/-! ## relay safety -/
+
+/-- relay_safe, uplink: every server protocol × client protocol (ss2022 with any number of identity headers on
+either side), every padding policy / random draw, every `maxClientPackerHeadroom` dominating the client's, every
+MTU, every packet of at most `packetBufRecvSize` bytes at `packetBufFrontHeadroom` of a buffer of `packetBufSize`
+bytes: unpacking and re-packing in place neither index outside the buffer nor lack seal room. -/
+theorem relay_safe_up (s : ServerU) (cp : ClientP) (hs : s.ok) (maxClient : Headroom) (mtu : Int) (b : Bytes) (n : Nat)
+    (hmaxF : (clientPackerHeadroom cp.proto).front ≤ maxClient.front)
+    (hmaxR : (clientPackerHeadroom cp.proto).rear ≤ maxClient.rear)
+    (hb : (b.length : Int) = (uplinkLayout mtu maxClient s.proto).bufSize)
+    (hn : (n : Int) ≤ (uplinkLayout mtu maxClient s.proto).recvSize) :
+    (relayUplink s cp b (uplinkLayout mtu maxClient s.proto).front.toNat n).safe :=
+  relay_up_safe s cp hs maxClient mtu b n hmaxF hmaxR hb hn
+
+/-- relay_safe, downlink (`relayNatConnToServerConn*` of both services): every client protocol × server protocol,
+every packet of at most `natConnRecvBufSize` bytes at `headroom.Front` of the buffer allocated there, every source
+address, every `maxClientPacketSize`. The direct server packer is covered under `ServerP.ok`: with
+`tunnelUDPTargetOnly` the tunnel address must be an IP address (finding F4 is the violation of this precondition). -/
+theorem relay_safe_down (cu : ClientU) (sp : ServerP) (hc : cu.ok) (hsp : sp.ok) (session : Bool) (recvSize : Int)
+    (src : AddrPort) (hsrc : src.wf) (b : Bytes) (n : Nat) (lim : Int)
+    (hb : (b.length : Int) = (downlinkLayout session recvSize sp.proto cu.proto).bufSize)
+    (hn : (n : Int) ≤ recvSize) :
+    (relayDownlink cu sp src b (downlinkLayout session recvSize sp.proto cu.proto).front.toNat n lim).safe :=
+  relay_down_safe cu sp hc hsp session recvSize src hsrc b n lim hb hn
+
+/-- the precondition is needed: the direct server packer with `tunnelUDPTargetOnly` and a domain tunnel address
+panics on the first reply (this is finding F4, owned by C06/C18; shown here only to justify `ServerP.ok`). -/
+theorem direct_target_only_domain_panics (name : Bytes) (port : Nat) (b : Bytes) (src : AddrPort) (ps pl : Nat) (lim : Int) :
+    directServerPack (.dom name port) true b src ps pl lim = .panic := rfl
+
+/-- the abstract cryptography hypothesis `Crypto.Laws` is satisfiable (the driver's instance) -/
+theorem crypto_laws_satisfiable : ∃ c : Crypto, c.Laws := ⟨toyCrypto, toyCrypto_laws⟩
+
+/-- the arithmetic core, front: needed front of the packer − actual header of the unpacker ≤ max(0, packerFront − unpackerFront) -/
+theorem relay_front_arith (s c : Proto) (a : Addr) (ha : a.wf) (hdr : Int) (hhdr : clientNeed s a ≤ hdr) :
+    clientNeed c a - hdr ≤ relayHeadroomFront (clientPackerHeadroom c).front (serverUnpackerHeadroom s).front :=
+  relay_front_core s c a ha hdr hhdr (clientPackerHeadroom c) (Int.le_refl _)
+
+/-! ## satisfiability of the hypotheses -/
+
 example : (Addr.dom [0x61] 53).wf := by decide
+example : (AddrPort.mk (.v6 (v4in6Prefix ++ [1, 2, 3, 4])) 53).wf := by decide
+example : tsOk [0, 0, 0, 0, 0x66, 0xf0, 0xf0, 0xf0] 1727066352 = true := by decide
+example : (ServerU.direct (.dom [0x61] 53)).ok := ⟨by decide, by simp⟩
+example : (ServerP.direct (.ip ⟨.v4 [1, 2, 3, 4], 53⟩) true).ok := fun _ => ⟨_, rfl⟩
+example : (ClientU.ss toyCrypto [1] [2] [0, 0, 0, 0, 0, 0, 0, 0] 0).ok := toyCrypto_laws
+/-- a successful pack exists (none, domain target, minimal front) -/
+example : ∃ r, plainClientPack false 1472 (List.replicate 20 0) (.dom [0x61] 53) 5 10 = .ok r := ⟨_, rfl⟩
 
 end SSV.C05
 
+#print axioms SSV.C05.norm_id_ip
+#print axioms SSV.C05.norm_id_v4
+#print axioms SSV.C05.norm_id_dom
+#print axioms SSV.C05.norm_mapped
 #print axioms SSV.C05.addr_codec_roundtrip
+#print axioms SSV.C05.addrport_codec_roundtrip
+#print axioms SSV.C05.roundtrip_plain_up
+#print axioms SSV.C05.roundtrip_plain_down
+#print axioms SSV.C05.roundtrip_ss2022_up
+#print axioms SSV.C05.roundtrip_ss2022_down
+#print axioms SSV.C05.roundtrip_direct
+#print axioms SSV.C05.max_packet_size_fits_mtu
+#print axioms SSV.C05.mtu_bound_plain_client
+#print axioms SSV.C05.mtu_bound_plain_server
+#print axioms SSV.C05.mtu_bound_ss2022_client
+#print axioms SSV.C05.mtu_bound_ss2022_server
+#print axioms SSV.C05.ss2022_pack_safe
+#print axioms SSV.C05.ss2022_pack_needs_rear
+#print axioms SSV.C05.frame_ss2022_client
+#print axioms SSV.C05.frame_ss2022_server
+#print axioms SSV.C05.frame_plain_client
+#print axioms SSV.C05.frame_plain_server
+#print axioms SSV.C05.relay_safe_up
+#print axioms SSV.C05.relay_safe_down
+#print axioms SSV.C05.direct_target_only_domain_panics
+#print axioms SSV.C05.crypto_laws_satisfiable
+#print axioms SSV.C05.relay_front_arith
